@@ -180,4 +180,79 @@ theorem lidealMul_full (p : ℤ) (I : LeftIdeal) (alpha : Elem) (bound prev m : 
     · rw [hlat]
       exact mul_elem_isLeftIdealOfNorm hord hI _ haO hNa
 
+/-! ## (d) exact transporter / right order certificates -/
+
+theorem val_elemDivInt (p : ℤ) (e : Elem) (n : ℤ) (hn : n ≠ 0) (he : e.denom ≠ 0) :
+    val p e = n • val p (elemDivInt e n) := by
+  have hnq : (n : ℚ) ≠ 0 := by exact_mod_cast hn
+  have heq : (e.denom : ℚ) ≠ 0 := by exact_mod_cast he
+  apply QuaternionAlgebra.ext <;> simp [val, elemDivInt] <;> field_simp
+
+/-- `conjProdsContained` ⇒ `L̄1·L2 ⊆ n·T` -/
+theorem conjProdsContained_sound (p n : ℤ) (l1 l2 T : Lattice) (h : conjProdsContained p n l1 l2 T = true)
+    (hn : n ≠ 0) (h1 : l1.denom ≠ 0) (h2 : l2.denom ≠ 0) (hT : T.denom ≠ 0) (hnT : IsHNF T.basis) :
+    conjS (hLat p l1) * hLat p l2 ≤ nsmul' n (hLat p T) := by
+  rw [conjS_hLat, hLat_eq_span p l2, Submodule.span_mul_span, Submodule.span_le]
+  rintro _ ⟨u, ⟨a, ha, rfl⟩, v, ⟨b, hb, rfl⟩, rfl⟩
+  obtain ⟨k, hk, rfl⟩ := mem_cols _ _ ha
+  obtain ⟨i, hi, rfl⟩ := mem_cols _ _ hb
+  unfold conjProdsContained at h
+  rw [List.all_eq_true] at h
+  have h' := h k hk
+  rw [List.all_eq_true] at h'
+  have h'' := h' i hi
+  have hc : (algConj (latCol l1 k)).denom ≠ 0 := h1
+  have hd : (algMul p (algConj (latCol l1 k)) (latCol l2 i)).denom ≠ 0 := algMul_denom_ne p _ _ hc h2
+  have hd' : (elemDivInt (algMul p (algConj (latCol l1 k)) (latCol l2 i)) n).denom ≠ 0 := mul_ne_zero hd hn
+  have hm := (latContains_iff_val p T _ hT hd' hnT).1 h''
+  have e : star (val p ⟨l1.denom, l1.basis.col k⟩) * val p ⟨l2.denom, l2.basis.col i⟩ =
+      val p (algMul p (algConj (latCol l1 k)) (latCol l2 i)) := by
+    rw [algMul_val p _ _ hc h2, val_algConj_col]; rfl
+  show star (val p ⟨l1.denom, l1.basis.col k⟩) * val p ⟨l2.denom, l2.basis.col i⟩ ∈ nsmul' n (hLat p T)
+  rw [e, val_elemDivInt p _ n hn hd]
+  exact mem_nsmul'.2 ⟨_, hm, rfl⟩
+
+/-- **an accepted exact certificate is the transporter**: for left ideals `I1, I2` of `O` where `I1` carries its stored
+    norm and `N(I1) ∈ Ī1·I1`, `isRightTransporterExact p I1 I2 T = true` implies `T = {x | I1·x ⊆ I2}`. -/
+theorem isRightTransporterExact_sound (p : ℤ) (I1 I2 : LeftIdeal) (T : Lattice)
+    (hI1 : IsLeftIdealOfNorm (hLat p I1.order) (hLat p I1.lattice) I1.norm)
+    (hinv : ((I1.norm : ℤ) : H p) ∈ conjS (hLat p I1.lattice) * hLat p I1.lattice)
+    (hI2 : ∀ a ∈ hLat p I1.order, ∀ y ∈ hLat p I2.lattice, a * y ∈ hLat p I2.lattice)
+    (h : isRightTransporterExact p I1 I2 T = true) :
+    hLat p T = transporter (hLat p I1.lattice) (hLat p I2.lattice) := by
+  unfold isRightTransporterExact at h
+  simp only [Bool.and_eq_true, bne_iff_ne, ne_eq] at h
+  obtain ⟨⟨⟨⟨hc, hwT⟩, hn0⟩, hd2⟩, hcp⟩ := h
+  obtain ⟨hdT, hnT⟩ := latWf_sound T hwT
+  have h1 := isRightTransporterCert_sound p _ _ _ hc
+  have hd1 : I1.lattice.denom ≠ 0 := by
+    unfold isRightTransporterCert at hc
+    simp only [Bool.and_eq_true, bne_iff_ne, ne_eq] at hc
+    exact hc.1.1.2
+  have h2 := conjProdsContained_sound p _ _ _ _ hcp hn0 hd1 hd2 hdT hnT
+  exact transporter_eq_of_cert hI1 hn0 hinv hI2 h1 h2
+
+/-- a generator returned by the model's search puts `N(I)` into `Ī·I` -/
+theorem norm_mem_conj_mul_of_generator (p : ℤ) (I : LeftIdeal) (n bound : ℤ) (g : Elem)
+    (hd : I.lattice.denom ≠ 0) (hord : IsOrder (hLat p I.order))
+    (hI : IsLeftIdealOfNorm (hLat p I.order) (hLat p I.lattice) I.norm) (hn0 : I.norm ≠ 0)
+    (h : generatorCoprime p I n bound = some g) :
+    ((I.norm : ℤ) : H p) ∈ conjS (hLat p I.lattice) * hLat p I.lattice := by
+  obtain ⟨_, hmem, q, hnq, c1, _⟩ := generatorCoprime_generates p I n bound g hd hord hI hn0 h
+  exact norm_mem_conj_mul (val p g) hmem hI.norm_mem (hasNorm_of_nrm hnq) c1
+
+/-- right order: an accepted exact certificate is `{x | I·x ⊆ I}`, which is then a ring with 1 -/
+theorem isRightOrderExact_sound (p : ℤ) (I : LeftIdeal) (O' : Lattice)
+    (hI : IsLeftIdealOfNorm (hLat p I.order) (hLat p I.lattice) I.norm)
+    (hinv : ((I.norm : ℤ) : H p) ∈ conjS (hLat p I.lattice) * hLat p I.lattice)
+    (h : isRightOrderExact p I O' = true) :
+    hLat p O' = transporter (hLat p I.lattice) (hLat p I.lattice) ∧ (1 : H p) ∈ hLat p O' ∧
+    hLat p O' * hLat p O' ≤ hLat p O' := by
+  have e := isRightTransporterExact_sound p I I O' hI hinv hI.left h
+  refine ⟨e, ?_, ?_⟩
+  · rw [e]; intro y hy; simpa using hy
+  · rw [e, Submodule.mul_le]
+    intro a ha b hb y hy
+    rw [← mul_assoc]; exact hb _ (ha y hy)
+
 end SqiProofs.IdealFull
